@@ -24,6 +24,10 @@ package sign
 //@   assert_at[C01] ResultRound "return r.ResultRound(sig)": typeis(arg1, taproot.Signature) ==> (r.taproot && bip340_ok(taprootPub, arg1.(taproot.Signature), r.M) && bval(taprootPub) == xbytes(ptval(r.Y)))
 //@   assert_at[C01] ResultRound "return r.ResultRound(sig)": typeis(arg1, Signature) ==> (!r.taproot && schnorr_valid(arg1.(Signature).R, arg1.(Signature).z, r.Y, r.M))
 //@   assert_at[C01] ResultRound "return r.ResultRound(sig)": typeis(arg1, taproot.Signature) || typeis(arg1, Signature)
+// refinement of the interface contract of round.Round.Finalize (what the handler relies on)
+//@   ensures result1 == nil ==> result0 != nil
+//@   ensures typeis(result0, *round.Abort) ==> result0.(*round.Abort).Err != nil
+//@   ensures typeis(result0, *round.Output) ==> result0.(*round.Output).Result != nil
 
 // ---- start function (C20): a session is created only for non-nil key material, a non-empty message and a signer
 // set that is duplicate-free, contains this party, has more than threshold members and only shareholders.
@@ -59,6 +63,11 @@ package sign
 //@   assert_at[C11] Write "nonceHasher.Write(r.Hash().Sum())": bval(arg1) == hsum(hstate(r.Helper.hash))
 // (induction on the session object) on success the next round starts from the state invariant its methods assume
 //@   ensures result1 == nil ==> (typeis(result0, *round2) && s2ok(result0.(*round2)) && result0.(*round2).round1 == r)
+// refinement of the interface contract of round.Round.Finalize (what the handler relies on)
+//@   ensures !closed(out)
+//@   ensures result1 == nil ==> result0 != nil
+//@   ensures typeis(result0, *round.Abort) ==> result0.(*round.Abort).Err != nil
+//@   ensures typeis(result0, *round.Output) ==> result0.(*round.Output).Result != nil
 
 // ---- round state invariants and acceptance gates of the signing rounds (C03, C05)
 // (maps are total over the signers once the start function accepted: every signer holds a share)
@@ -102,3 +111,8 @@ package sign
 //@   assert_at[C01] BroadcastMessage "err := r.BroadcastMessage(out, &broadcast3{Z_i: z_i})": typeis(arg2, *broadcast3) && arg2.(*broadcast3).Z_i == z_i
 // (induction on the session object) on success the next round starts from the state invariant its methods assume
 //@   ensures result1 == nil ==> (typeis(result0, *round3) && s3ok(result0.(*round3)) && result0.(*round3).round2 == r)
+// refinement of the interface contract of round.Round.Finalize (what the handler relies on)
+//@   ensures !closed(out)
+//@   ensures result1 == nil ==> result0 != nil
+//@   ensures typeis(result0, *round.Abort) ==> result0.(*round.Abort).Err != nil
+//@   ensures typeis(result0, *round.Output) ==> result0.(*round.Output).Result != nil
